@@ -161,11 +161,43 @@ let c09mm (w : string list) : string =
      | Ok _ -> "ok" | _ -> "panic")
   | _ -> failwith "c09mm: bad command"
 
+(* ---- C11 ---- *)
+let rec nat_of_int (n : int) : nat = if n = 0 then O else S (nat_of_int (n - 1))
+let elems_of_hex (s : string) : n list =
+  if s = "-" then [] else
+  List.init (String.length s / 4) (fun i -> n_of_int (int_of_string ("0x" ^ String.sub s (4*i) 4)))
+let rec chunk (c : int) (l : 'a list) : 'a list list =
+  if l = [] then [] else
+  let rec take k l acc = if k = 0 then (List.rev acc, l) else
+      match l with x :: r -> take (k-1) r (x :: acc) | [] -> (List.rev acc, []) in
+  let (h, t) = take c l [] in h :: chunk c t
+let hex_of_matrix (m : n list list) : string =
+  String.concat "" (List.map (fun r -> String.concat "" (List.map (fun x -> Printf.sprintf "%04x" (int_of_n x)) r)) m)
+let show_outcome_matrix = function
+  | Ok m -> "ok " ^ hex_of_matrix m
+  | Err _ -> "err"
+  | Panic _ -> "panic"
+
+let c11 (w : string list) : string =
+  match w with
+  | ["inv"; n; h] ->
+    let n = int_of_string n in
+    show_outcome_matrix (inverse16 (chunk n (elems_of_hex h)))
+  | ["rr"; n; c; hm; hn] ->
+    let n = int_of_string n and c = int_of_string c in
+    show_outcome_matrix (rowReduce16 (chunk n (elems_of_hex hm)) (chunk c (elems_of_hex hn)))
+  | ["times"; _r; k; k2; c; ha; hb] ->
+    let k = int_of_string k and k2 = int_of_string k2 and c = int_of_string c in
+    let a = chunk k (elems_of_hex ha) and b = chunk c (elems_of_hex hb) in
+    show_outcome_matrix (times16_checked (nat_of_int k) (nat_of_int c) a b)
+  | _ -> failwith "c11: bad command"
+
 let dispatch (line : string) : string =
   match String.split_on_char ' ' (String.trim line) with
   | "c08" :: w -> c08 w
   | "c09" :: w -> c09 w
   | "c09mm" :: w -> c09mm w
+  | "c11" :: w -> c11 w
   | _ -> failwith ("bad line: " ^ line)
 
 let () =
